@@ -138,3 +138,23 @@ def install(spec: Spec):
                 ('returned_exception_is_error', "implies('result' in kwargs and isinstance(kwargs['result'], BaseException), result.status == 'error' and result.error is kwargs['result'] and result.result is None)", ['C11']),
             ])
     spec.methods[('BaseEvent', 'event_result_update')] = 'BaseEvent.event_result_update'
+
+    # ------------------------------------------------------------------ children views and cancellation of pending child handlers (C03, C10)
+    spec.fn('BaseEvent.event_children', file=M, qual='BaseEvent.event_children', params={'self': 'BaseEvent'}, returns='list[BaseEvent]', trusted=True, allocates=False,
+            ensures=[('every_recorded_child_listed', "forall(lambda k, i: implies(k in self.event_results and 0 <= i and i < len(self.event_results[k].event_children), "
+                                                     "self.event_results[k].event_children[i] in result), 'str', 'int')", ['C03', 'C10']),
+                     ('only_recorded_children', "forall(lambda i: implies(0 <= i and i < len(result), exists(lambda k: k in self.event_results and result[i] in self.event_results[k].event_children, 'str')))", ['C03'])],
+            notes='view: concatenation of the per-result event_children lists in handler order (loop of list.extend); assumed, not verified')
+    P[('BaseEvent', 'event_children')] = 'BaseEvent.event_children'
+
+    spec.fn('BaseEvent.event_cancel_pending_child_processing', file=M, qual='BaseEvent.event_cancel_pending_child_processing', trusted=True,
+            params={'self': 'BaseEvent', 'error': 'BaseException'}, returns='NoneType',
+            modifies=[('status', '*'), ('error', '*'), ('started_at', '*'), ('completed_at', '*'), ('_handler_completed_signal', '*'), ('ev_set', '*')],
+            ensures=[('only_pending_results_touched', "forall(lambda r: implies(old(r.status) != 'pending', r.status == old(r.status) and r.error is old(r.error) and r.completed_at is old(r.completed_at) "
+                                                      "and r.started_at is old(r.started_at)), 'EventResult')", ['C10', 'C08']),
+                     ('never_creates_pending', "forall(lambda r: implies(r.status == 'pending', old(r.status) == 'pending'), 'EventResult')", ['C10']),
+                     ('cancelled_become_errors', "forall(lambda r: implies(old(r.status) == 'pending' and r.status != 'pending', r.status == 'error' and r.error is not None and r.completed_at is not None), 'EventResult')", ['C10']),
+                     ('no_pending_left_in_children', "forall(lambda i, k: implies(0 <= i and i < len(self.event_children) and k in self.event_children[i].event_results, "
+                                                     "self.event_children[i].event_results[k].status != 'pending'), 'int', 'str')", ['C10'])],
+            notes='recursive walk over event_children calling EventResult.update(error=...) on pending results; contract assumed here (body: two nested loops + recursion)')
+    spec.methods[('BaseEvent', 'event_cancel_pending_child_processing')] = 'BaseEvent.event_cancel_pending_child_processing'
